@@ -12,7 +12,7 @@ VERIF = os.path.dirname(os.path.dirname(os.path.abspath(__file__)))
 
 def load(prop):
     out = []
-    for path in sorted(glob.glob(os.path.join(VERIF, "probes", "*.json"))):
+    for path in sorted(glob.glob(os.path.join(VERIF, "probes", "K*.json"))):
         with open(path) as f:
             d = unjson(json.load(f))
         if prop in d["properties"]:
